@@ -40,10 +40,16 @@ def run(tier: str, rep: Report, prefixes=("P12.",), pid=PID):
     terms = c07.model_terms(rep, wd, 1)
     if tier == "quick":
         terms = [t for k, t in enumerate(terms) if t[1][0] in ("atom", "complex") or k % 5 == 0]
+    # ... and on every document shape of MC_Doc (each optional field of each dataclass present/absent, private
+    # override fields on every argument kind, nested code constants)
+    shapes = c07.model_shapes(rep, wd)
+    if tier == "quick":
+        shapes = [s for i, s in enumerate(shapes) if s[0].startswith("instr") or i % 2 == 0]
     pool = Pool(SUPPORTED, per_version=4)
     jfiles = []
     try:
         args = {}
+        sargs = {}
         k = 0
         for v in SUPPORTED:
             args[v] = []
@@ -52,11 +58,14 @@ def run(tier: str, rep: Report, prefixes=("P12.",), pid=PID):
                 f = str(wd / f"terms-{v}-{k}.ndjson")
                 jfiles.append(f)
                 args[v].append({"terms": ch, "path": f})
+            sargs[v] = [j[1] for j in c07.shape_jobs(shapes, wd, v, jfiles, 100000)]
         res = pool.map_all("jsonw.terms_to_file", args)
+        sres = pool.map_all("jsonw.shapes_to_file", sargs)
     finally:
         pool.close()
     c07.vt_pass(jfiles)
-    rep.cov["json_codec_documents_probed_for_purity"] = sum(sum(x) for x in res.values())
+    rep.cov["json_codec_documents_probed_for_purity"] = sum(sum(x) for x in res.values()) + sum(x[0] for xs in sres.values() for x in xs)
+    rep.cov["document_shapes"] = len(shapes)
     fails += df.validate(rep, jfiles, "Trace_Json", expect_delta=0)
 
     def keyfn(evid, clauses):
